@@ -19,7 +19,16 @@ Claimed layers (DESIGN.md 7/C01):
      updates from the user's live counters to its cancelled counters and subtracts the group's totals from every ancestor
      group (contracts/cancel_counters.py); _create_jobs stages per (group, inst_coll) exactly [Ready] / [Ready and not
      always_run] counts and cores for each job (contracts/create_jobs_frag.py).
-Not claimed (listed undecided): cancel_batch, commit_batch_update staging transfer, cleanup loops.
+     Wave 4 (contracts/counter_bulk.py): the transaction of one bunch, front_end._create_jobs.insert_jobs_into_db (real
+     coroutine, pyvc; its SQL executed by sqlvc with the placeholders bound to the Python values): no counter table is written
+     before the jobs INSERT has passed the duplicate-bunch test (the duplicate branch returns normally = commits), an accepted
+     bunch writes each of the two tables exactly once, and each (group, inst_coll) entry is fanned out to exactly the ancestors
+     of its group under (batch, update, ancestor, inst_coll, token) with the entry's own totals; commit_batch_update adds
+     exactly the root group's staged ready totals of this update to the batch user's live counters, once (in the transaction
+     that flips `committed` from 0 to 1); the driver's two cleanup loops delete only cancellable rows of groups with
+     grp_cancelled resp. staging rows of committed updates; closed world of all writers of the three counter tables; the
+     stored procedure cancel_batch (which sums every group's rows) is never called.
+Not claimed (listed undecided): layer-2 clause (iii); the job-row rewrite of commit_batch_update for updates other than the first.
 """
 from __future__ import annotations
 
@@ -177,5 +186,15 @@ def build(ctx):
     ctx.assume('each trigger invocation sees one consistent database (statement atomicity); the group-cancellation relation does not change within a jobs UPDATE statement (no statement writes jobs and job_groups_cancelled together)')
     ctx.assume('token abstraction: readers aggregate the counters over `token`; one shard changed by e changes the total by e (meta-lemma L1)')
     ctx.assume('MySQL evaluates select-list expressions left to right before the ON DUPLICATE KEY UPDATE clause of the same row')
-    ctx.undecided('bulk operations not yet under contract: cancel_batch (DELETE of the cancellable rows), commit_batch_update staging transfer into the user counters, the per-ancestor fan-out of the staging rows in _create_jobs, cleanup loops in driver/main.py')
+    # ---- L3, second part (wave 4): bunch transaction, staging transfer at commit, cleanup loops, closed world of the writers
+    from contracts import counter_bulk
+    counter_bulk.insert_jobs_contract(ctx)
+    counter_bulk.commit_transfer(ctx, ex3)
+    counter_bulk.cleanup_loops(ctx)
+    counter_bulk.closed_world(ctx, ex3)
+    # each procedure call is treated as one atomic step; that rests on the row locks its first reads take (a commit or a
+    # cancellation racing with itself would otherwise move the same totals twice)
+    SP.lock_discipline(ctx, ex3, ['commit_batch_update', 'cancel_job_group'])
+    SP.engine_obligations(ctx, ex3)
+    ctx.undecided('commit_batch_update for updates other than the first: the set-oriented re-evaluation of the update\'s job rows (UPDATE jobs ... through the trigger contract) is not stated here (C05 covers the recomputed state); the step from per-statement deltas to the global invariant is the paper induction with meta-lemmas L1/L2')
     ctx.undecided('layer-2 clause (iii): every jobs UPDATE touches only committed jobs or leaves the summands unchanged (ties C01 to C41; mark_job_complete children statement is the known exception F1)')
